@@ -1,0 +1,11 @@
+//go:build verif
+
+package compose
+
+import "github.com/cloudwego/eino/schema"
+
+// VerifConcatStreamC14 exposes concatStreamReader (the stream→value conversion used by every
+// paradigm adaptor) to the verification harness. Add-only, compiled only with -tags verif.
+func VerifConcatStreamC14[T any](sr *schema.StreamReader[T]) (T, error) {
+	return concatStreamReader(sr)
+}
